@@ -312,9 +312,15 @@ func (w *Worker) assert(id string, c *Term, msg string) {
 	}
 	tt := w.tt
 	w.st.Obligations++
-	r := Sat
+	var r SatResult
 	if !c.IsConst() {
 		r = w.check(tt.Not(c))
+	} else {
+		// folded to false on this path: a model of the path condition is the counterexample
+		r = w.check()
+		if r == Unsat {
+			panic(pathEnd{"infeasible", "assert on infeasible path"})
+		}
 	}
 	switch r {
 	case Unsat:
